@@ -252,6 +252,22 @@ def deltaTsFloat (dt : Int) : Int :=
   let rate : Float := 1e9 / Float.ofInt dt
   Int.ofNat (1e9 / rate).toUInt64.toNat
 
+/-- `float(N) * 1e-9` as the code computes it in binary64: the integer is converted (rounded when it
+    needs more than 53 bits), the literal `1e-9` is the double nearest to 10⁻⁹, the product is rounded. -/
+def secondsOf (N : Nat) : Nat × Nat :=
+  if N = 0 then (0, 1)
+  else
+    let f := rnDiv N 1
+    let c := rnDiv 1 1000000000
+    rnDiv (f.1 * c.1) (f.2 * c.2)
+
+/-- `x * n` in binary64 for a double `x` (as a fraction) and an integer `n`. -/
+def timesNat (x : Nat × Nat) (n : Nat) : Nat × Nat :=
+  if x.1 = 0 ∨ n = 0 then (0, 1)
+  else
+    let f := rnDiv n 1
+    rnDiv (x.1 * f.1) (x.2 * f.2)
+
 /-- `image.max(axis=0)`: maximum of every column of an image with `n` columns. -/
 def colMax (img : List (List Int)) (n : Nat) : List Int :=
   (List.range n).map fun c => listMax (img.map fun row => row.getD c 0)
@@ -318,6 +334,13 @@ def Wave.numBoundaries (w : Wave) : Nat := (w.iw.filter (· == 2)).length
     Outer `none` = `RuntimeError` (no pixel), inner `none` = `IndexError` (image of no pixel). -/
 def Wave.durationNs (w : Wave) (P : Nat) : Option Int :=
   (w.lineTimeNs P).map fun lt => lt * numBlocks w.numBoundaries P
+
+/-- `pixel_time_seconds`, `line_time_seconds`, `duration` as binary64 values (exact fractions). -/
+def Wave.pixelTimeSec (w : Wave) : Option (Nat × Nat) := w.pixelTimeNs.map fun ns => secondsOf ns.toNat
+def Wave.lineTimeSec (w : Wave) (P : Nat) : Option (Nat × Nat) :=
+  (w.lineTimeNs P).map fun ns => secondsOf ns.toNat
+def Wave.durationSec (w : Wave) (P : Nat) : Option (Nat × Nat) :=
+  (w.lineTimeNs P).map fun ns => timesNat (secondsOf ns.toNat) (numBlocks w.numBoundaries P)
 
 /-! ### scans -/
 
@@ -431,6 +454,13 @@ def pixSuffix (w : Wave) : String :=
     " " ++ showBool ((tsMeanRowsTrace rows k).all fitsI64) ++ " " ++
       toString (intMeanRowsSplits (rows.map fun r => r.map (· - listMin rows.flatten)) k)
 
+def showFrac (x : Nat × Nat) : String := toString x.1 ++ "/" ++ toString x.2
+
+/-- `"<integer ns> <binary64 seconds as an exact fraction>"` -/
+def showTime : Option Int → Option (Nat × Nat) → String
+  | some ns, some s => showInt ns ++ " " ++ showFrac s
+  | _, _ => "RuntimeError"
+
 def mkWave? (st dt iw : String) : Option Wave := do
   let st ← int? st; let dt ← int? dt; let iw ← natList? iw
   if dt ≤ 0 then none
@@ -444,7 +474,8 @@ def mkWave? (st dt iw : String) : Option Wave := do
   `c03.kts   <wave> P`            `Kymo.timestamps`, then `T/F` = every intermediate of the per-pixel mean fits int64, then #splits
   `c03.krex  <wave> P`            `line_timestamp_ranges()` followed by the δ used
   `c03.krin  <wave> P`            `line_timestamp_ranges(include_dead_time=True)`
-  `c03.klt / c03.kdur <wave> P`   line time / duration in ns;  `c03.pt <wave>` pixel time in ns
+  `c03.klt / c03.kdur <wave> P`   line time / duration: integer ns, then the binary64 seconds the code returns as an
+                                  exact fraction `num/den`;  `c03.pt <wave>` pixel time, the same
   `c03.ksum  <wave> P [counts] cstart [cdata]`  `channel.downsampled_over(line ranges, np.sum)` then the image column totals
   `c03.sts   <wave> P L flip`     `Scan.timestamps` (frames separated by `|`)
   `c03.srng  <wave> P L incl`     `frame_timestamp_ranges`: pinned answer, then the repaired one
@@ -486,15 +517,15 @@ def handle : List String → Option String
     if p = 0 then none else some (guardEmpty w (showRanges2 (w.lineRangesInclFixed p (deltaTs w.dt))))
   | ["c03.klt", st, dt, iw, p] => do
     let w ← mkWave? st dt iw; let p ← nat? p
-    if p = 0 then none else some (showErr showInt "RuntimeError" (w.lineTimeNs p))
+    if p = 0 then none else some (showTime (w.lineTimeNs p) (w.lineTimeSec p))
   | ["c03.kdur", st, dt, iw, p] => do
     let w ← mkWave? st dt iw; let p ← nat? p
     if p = 0 then none
     else if w.numBoundaries = 0 ∧ (w.lineTimeNs p).isSome then some "IndexError"
-    else some (showErr showInt "RuntimeError" (w.durationNs p))
+    else some (showTime (w.durationNs p) (w.durationSec p))
   | ["c03.pt", st, dt, iw] => do
     let w ← mkWave? st dt iw
-    some (showErr showInt "RuntimeError" (w.pixelTimeNs))
+    some (showTime w.pixelTimeNs w.pixelTimeSec)
   | ["c03.ksum", st, dt, iw, p, data, cst, cdata] => do
     let w ← mkWave? st dt iw; let p ← nat? p; let data ← intList? data
     let cst ← int? cst; let cdata ← intList? cdata
